@@ -187,6 +187,12 @@ Theorem T02_handler_truncated_not_finished : handler_finishes_message true = fal
 Proof. exact (f_equal negb ob_handler_copy_error_aborts). Qed.
 Print Assumptions T02_handler_truncated_not_finished.
 
+(* Whatever a refused (or any) request left unread of its body, the next request head is read
+   right after it: the body of request k never becomes request k+1. *)
+Theorem T02_request_body_consumed : forall unread rest, after_exchange unread rest = rest.
+Proof. exact (fun unread rest => f_equal (fun c : bool => if c then rest else unread ++ rest) ob_handle_closes_request_body). Qed.
+Print Assumptions T02_request_body_consumed.
+
 (* roundTrip's discard: a header-only reply that arrives with a body (possible with a
    RoundTripper other than http.Transport) leads to no Write in the http.Handler variant, and
    the connection handler's header-only writer emits the same bytes with or without it. *)
